@@ -39,14 +39,14 @@ class Harness:
         st0, st, ext = m.st0, m.st, m.ext
         self.wrec.msgs = []
         rts = []
-        for j in range(self.roots):
+        for j in range(max(self.roots, 0)):
             r = z3.Int(f'root{j}')
             c.assume(m.present0(r))
             rts.append(r)
 
         def extract(model):
             case = m.extract(model)
-            case['args'] = dict(roots=[base.ev_int(model, r) for r in rts] if self.roots else None,
+            case['args'] = dict(roots=[] if self.roots == -1 else [base.ev_int(model, r) for r in rts] if self.roots else None,
                                 shutdown=self.shutdown)
             case['harness'] = 'k8_gc'
             return case
@@ -60,6 +60,8 @@ class Harness:
         try:
             if self.shutdown:
                 self.B.BDD.__del__(bdd)
+            elif self.roots == -1:
+                bdd.collect_garbage([])          # a rooted collection with no candidates: nothing may go
             elif self.roots:
                 bdd.collect_garbage([SymInt(r) for r in rts])
             else:
@@ -100,6 +102,9 @@ class Harness:
         ]
         if not self.roots:
             goals.append(Goal('only_referenced_or_needed_nodes_remain', z3.And(live)))
+        if self.roots == -1:
+            goals.append(Goal('empty_rooted_collection_frees_nothing', z3.And(
+                [z3.Select(st.P, k) == z3.Select(st0.P, k) for k in m.ids])))
         res = base.discharge(goals, [], extract)
         outcome = 'collected' if st.P is not st0.P else 'nothing_to_collect'
         wit = base.witness(extract)
@@ -172,6 +177,9 @@ def replay(case):
     for k in must:
         if concrete.tt(bdd, k) != tts[k]:
             return dict(violates=True, key='gc/changes-function', detail=f'{call}: node {k} changed', observed=obs)
+    if roots == [] and now != set(old):
+        return dict(violates=True, key='gc/empty-rooted-collection-frees-nodes',
+                    detail=f'collect_garbage([]) (no candidates) deleted nodes {sorted(set(old) - now)}', observed=obs)
     if roots is None and now != must:
         return dict(violates=True, key='gc/leaves-unreachable-node',
                     detail=f'{call} left unreachable nodes {sorted(now - must)}', observed=obs)
